@@ -49,7 +49,8 @@ V_BASE = [("sphdist", "deg", "deg", 0, 0, 0), ("sphdist", "deg", "deg", 0, 0, 1)
 V_MORE = [("sphdist", "deg", "deg", 1, 0, 0), ("sphdist", "deg", "deg", 0, -1, 0), ("sphdist", "deg", "deg", 1, 1, 1),
           ("gcirc", "deg", "rad", 1, 0, 0), ("gcirc", "deg", "rad", -1, 1, 1),
           ("sphdist", "rad", "deg", 0, 1, 0), ("sphdist", "deg", "rad", -1, 0, 1), ("sphdist", "rad", "rad", 1, -1, 1)]
-SHAPES = ("scalar", "n1", "n3", "long", "one_vs_n3")     # one_vs_n3: first point python floats, second point arrays
+SHAPES = ("scalar", "n1", "n3", "long", "one_vs_n3", "n2x3")     # one_vs_n3: first point python floats, second point arrays;
+                                                                  # n2x3: two-dimensional arrays of shape (2, 3)
 BLOCK = 240          # pairs per evaluation block = length of the "long" arrays
 
 
@@ -68,7 +69,7 @@ def pair_args(pr, var):
     return (conv(Fraction(a[0]) + 360 * k1), conv(Fraction(a[1])), conv(Fraction(b[0]) + 360 * k2), conv(Fraction(b[1])))
 
 
-def call(var, A, mixed=False):
+def call(var, A, mixed=False, twod=False):
     """A: (n,4) doubles or a tuple of 4 python floats -> list of per-element (err, value)"""
     import esutil.coords as co
     fn = var[0]
@@ -82,6 +83,8 @@ def call(var, A, mixed=False):
         before = [a.tobytes() for a in arrs]
     else:
         args = tuple(np.ascontiguousarray(A[:, k]) for k in range(4))
+        if twod:
+            args = tuple(a.reshape(2, 3) for a in args)
         before = [a.tobytes() for a in args]
     try:
         with np.errstate(all="ignore"):
@@ -149,7 +152,8 @@ def eval_block(arg):
         t += 1
     groups = ([("scalar", [m]) for m in range(n)] + [("n1", [m]) for m in range(n)] +
               [("n3", perm3[t:t + 3]) for t in range(0, len(perm3), 3)] + [("long", perm_long)] +
-              [("one_vs_n3", [m, perm3[m % len(perm3)], perm_long[m]]) for m in range(n)])
+              [("one_vs_n3", [m, perm3[m % len(perm3)], perm_long[m]]) for m in range(n)] +
+              [("n2x3", (perm_long + perm_long[:6])[t:t + 6]) for t in range(0, n, 6)])
     raw = [dict() for _ in pairs]                # per pair: (vi, err, hex) -> [first (shape, idxs, pos), set of shapes]
     near = [sep_group(pr) == "near180" for pr in pairs]
     gnear = {id(idxs): any(near[t] for t in idxs) for _, idxs in groups}
@@ -157,7 +161,7 @@ def eval_block(arg):
         C = np.array([pair_args(pr, var) for pr in pairs], dtype="f8")
         for shape, idxs in groups:
             A = tuple(float(x) for x in C[idxs[0]]) if shape == "scalar" else C[idxs]
-            for pos, (m, (err, v)) in enumerate(zip(idxs, call(var, A, mixed=(shape == "one_vs_n3")))):
+            for pos, (m, (err, v)) in enumerate(zip(idxs, call(var, A, mixed=(shape == "one_vs_n3"), twod=(shape == "n2x3")))):
                 # an exception belongs to the whole call: remember whether the call held a near-antipodal pair
                 key = (vi, err if v is not None or not gnear[id(idxs)] else err + "@near180", None if v is None else v.hex())
                 cl = raw[m].get(key)
@@ -405,7 +409,7 @@ def replay(ctx, case):
     var = tuple(case["variant"])
     C = np.array([[float.fromhex(x) for x in row] for row in case["call"]], dtype="f8")
     A = tuple(float(x) for x in C[0]) if case["shape"] == "scalar" else C
-    err, v = call(var, A, mixed=(case["shape"] == "one_vs_n3"))[case["index"]]
+    err, v = call(var, A, mixed=(case["shape"] == "one_vs_n3"), twod=(case["shape"] == "n2x3"))[case["index"]]
     pr = {"kind": case["kind"], "c": case["c"], "id": 1}
     if case["kind"] == "gc":
         pr.update(eps=case["eps"], sep=case["sep"])
